@@ -1,63 +1,11 @@
 // vh is the correspondence / oracle harness: it drives the real gribigo packages and writes
 //   <out>/cases.json   the generated cases (replayable inputs)
-//   <out>/cases.v      the same cases with the implementation's observables, as Gallina terms
+//   <out>/cases_<k>.v  the same cases with the implementation's observables, as Gallina terms
 //   <out>/impl.json    oracle verdicts and input statistics
 package main
 
-import (
-	"flag"
-	"fmt"
-	"os"
-	"sort"
+import "verifharness/drv"
 
-	"github.com/golang/glog"
-)
+var cmds = map[string]drv.Cmd{}
 
-// Verdict is what the model-free oracle says about one case.
-type Verdict struct {
-	Case    int    `json:"case"`
-	Problem string `json:"problem"`
-}
-
-// Report is impl.json.
-type Report struct {
-	Property   string         `json:"property"`
-	Seed       int64          `json:"seed"`
-	Cases      int            `json:"cases"`
-	Nontrivial int            `json:"distinct_nontrivial"`
-	Rule       string         `json:"rule"`
-	Stats      map[string]int `json:"stats"`
-	Violations []Verdict      `json:"violations"`
-	Hangs      []Verdict      `json:"hangs"`
-	Samples    []any          `json:"samples"`
-	Shard      int            `json:"shard"`
-}
-
-type cmd func(args []string) error
-
-var cmds = map[string]cmd{}
-
-func main() {
-	if len(os.Args) < 2 {
-		names := []string{}
-		for n := range cmds {
-			names = append(names, n)
-		}
-		sort.Strings(names)
-		fmt.Fprintln(os.Stderr, "usage: vh <", names, "> [flags]")
-		os.Exit(2)
-	}
-	c, ok := cmds[os.Args[1]]
-	if !ok {
-		fmt.Fprintln(os.Stderr, "unknown command", os.Args[1])
-		os.Exit(2)
-	}
-	// glog: keep its files out of /tmp
-	flag.CommandLine.Parse([]string{})
-	if err := c(os.Args[2:]); err != nil {
-		fmt.Fprintln(os.Stderr, "vh:", err)
-		glog.Flush()
-		os.Exit(3)
-	}
-	glog.Flush()
-}
+func main() { drv.Main(cmds) }
